@@ -457,19 +457,31 @@ def _subgraph_feasibility(
 def _stereo_feasibility(
     u: AtomId, v: AtomId, state: _State, params: _Parameters
 ) -> bool:
+    # None is the placeholder of a lone pair and maps to itself
     s1 = [
         stereo.__class__(
-            atoms=tuple([state.mapping[a] for a in stereo.atoms]),
+            atoms=tuple(
+                [
+                    state.mapping[a] if a is not None else None
+                    for a in stereo.atoms
+                ]
+            ),
             parity=stereo.parity,
         )
         for stereo in params.g1_stereo[u]
-        if all([a in state.mapping for a in stereo.atoms])
+        if all([a in state.mapping for a in stereo.atoms if a is not None])
     ]
 
     s2 = [
         stereo
         for stereo in params.g2_stereo[v]
-        if all([a in state.inverted_mapping for a in stereo.atoms])
+        if all(
+            [
+                a in state.inverted_mapping
+                for a in stereo.atoms
+                if a is not None
+            ]
+        )
     ]
 
     if len(s2) != len(s1):
